@@ -211,6 +211,30 @@ def _classify_groups(pattern, verbose=False):
                 for alt in av[1]:
                     walk(alt, under_decimal)
     walk(tree, False)
+    # the fill character is only a fill character when an alignment character follows it (`{:>5}` has no fill, `{:*>5}` has): the fill group is optional
+    # *inside* a group that requires the alignment group -- standing on its own it swallows the first digit of a width
+    def seq_has(items, role):
+        return any(str(op) == 'SUBPATTERN' and roles.get(av[0]) == role for op, av in items)
+
+    def find_fill_context(items):
+        for op, av in items:
+            name = str(op)
+            if name == 'SUBPATTERN':
+                sub = av[3]
+                inner_optional_fill = any(str(o2) in ('MAX_REPEAT', 'MIN_REPEAT') and seq_has(v2[2], 'fill') for o2, v2 in sub)
+                if inner_optional_fill or seq_has(sub, 'fill'):
+                    return seq_has(sub, 'align')
+                got = find_fill_context(sub)
+                if got is not None:
+                    return got
+            elif name in ('MAX_REPEAT', 'MIN_REPEAT'):
+                if seq_has(av[2], 'fill'):
+                    return False            # an optional fill on its own, not inside a group with the alignment
+                got = find_fill_context(av[2])
+                if got is not None:
+                    return got
+        return None
+    roles['#fill-needs-align'] = find_fill_context(tree)
     return roles
 
 
@@ -236,17 +260,24 @@ def spec_parse_obligation(ck):
         if isinstance(st, ast.Assign) and u(st.targets[0]) == 'FormatSpec' and isinstance(st.value, ast.Call) and len(st.value.args) == 2:
             f_ = try_fold(st.value.args[1], default=None)
             fields = f_.split() if isinstance(f_, str) else list(f_) if isinstance(f_, (list, tuple)) else None
-    groups = [c for c in ast.walk(fn) if isinstance(c, ast.Call) and call_attr(c) == 'group' and 'format_spec_re' in u(c.func.value)]
+    groups = [c for c in ast.walk(fn) if isinstance(c, ast.Call) and call_attr(c) in ('group', 'groups') and 'format_spec_re' in u(c.func.value)]
     ck.need(len(pats) == 1 and fields and len(groups) == 1, 'TruncFormatter: format_spec_re / FormatSpec / the .group(..) call were not found')
     try:
         roles = _classify_groups(pats[0], verbose)
     except Exception as err:  # pylint: disable=broad-except
         ck.need(False, 'TruncFormatter.format_spec_re could not be parsed: {}'.format(err))
-    idx = [try_fold(a, default=None) for a in groups[0].args]
+    if call_attr(groups[0]) == 'groups':
+        # .groups(): every capture group, in order
+        idx = sorted(k for k in roles if isinstance(k, int))
+    else:
+        idx = [try_fold(a, default=None) for a in groups[0].args]
     got = [roles.get(i, 'no such group') for i in idx]
     ok = len(idx) == len(fields) and got == fields
     ck.ob('FMT-spec-parse', tf.loc(groups[0]), ok, 'FormatSpec{} is filled from the capture groups {} of format_spec_re, which match {}'.format(tuple(fields), tuple(idx), got),
           key='FMT-spec-parse|groups')
+    ck.ob('FMT-spec-parse', tf.loc(groups[0]), roles.get('#fill-needs-align') is True, 'a fill character is only recognised together with the alignment character that follows it '
+          '(the fill group is optional inside the group that holds the alignment group); on its own it would take the first digit of the width',
+          key='FMT-spec-parse|fill-with-align')
     # the expression is used through fullmatch on the spec with the trailing `t` cut off
     ck.ob('FMT-spec-parse', tf.loc(groups[0]), call_attr(groups[0].func.value) == 'fullmatch' if isinstance(groups[0].func.value, ast.Call) else False,
           'the whole format spec is matched (fullmatch)', key='FMT-spec-parse|fullmatch')
